@@ -17,6 +17,7 @@
 (* every trace (total verdicts).                                            *)
 (***************************************************************************)
 EXTENDS SimProps, SimMatch, Json, IOUtils, TLCExt
+STL == INSTANCE Settlement
 
 CONSTANT Props        \* which formula families to evaluate, e.g. {"R", "C03", "C04"}
 
@@ -355,6 +356,79 @@ P_C07T(pre, e) ==
              <<e.pkgs[i].kind, e.pkgs[i].delay, e.pkgs[i].betdelay>>))
     /\ (e.ev = "upd" => Ck("C07", "ClockIsPublishTime", post.clock = e.a.pt, <<post.clock, e.a.pt>>))
 
+
+-----------------------------------------------------------------------------
+(* C08 settlement (evaluated on the step that closes a market) *)
+SameFills(a, b) == Len(a) = Len(b) /\ \A i \in DOMAIN a : a[i][2] = b[i][2] /\ a[i][3] = b[i][3]
+P_C08(pre, e) ==
+    e.ev = "close" =>
+    LET post == e.st
+        SS == e.a.settle
+        inscope(o) ==   \* each-way dead heats and dead heats in multi-winner markets are outside the statement
+            ~(SS[o].ndh > 1 /\ (SS[o].mtype = "EACH_WAY" \/ e.a.nwin # 1))
+    IN
+    /\ \A o \in DOMAIN SS :
+         Has(post.ord, o) =>
+         LET x == SS[o]  ord == post.ord[o]
+             \* a market-on-close lay re-sized after a non-runner keeps its fragment but not its size
+             fr == IF STL!SumStake(ord.frags) = ord.m THEN ord.frags ELSE <<<<0, ord.avg, ord.m>>>>
+             r == STL!Profit(ord.side, fr, x.mtype, x.rstatus, x.ndh, x.ewd, x.lineorder, x.line, x.lineresult)
+         IN /\ (inscope(o) => Ck("C08", "ProfitRule", STL!Agrees(x.profit, r, (IF x.mtype = "EACH_WAY" THEN ord.m ELSE ord.m \div 2) + 100),
+                                 <<o, x.profit, r, ord.side, ord.frags, x.rstatus, x.mtype, x.ndh, x.ewd>>))
+            /\ Ck("C08", "ZeroIfUnmatchedOrRemoved",
+                  (ord.m = 0 \/ (x.rstatus = "REMOVED" /\ ~x.lineorder)) => x.profit = 0, <<o, x.profit>>)
+            /\ Ck("C08", "OrdersGetResults",
+                  (ord.inbl /\ ord.selk \in DOMAIN e.a.rstat) => x.rstatus = e.a.rstat[ord.selk], <<o, x.rstatus>>)
+    /\ \A a \in DOMAIN SS : \A b \in DOMAIN SS :
+         (Has(post.ord, a) /\ Has(post.ord, b) /\ post.ord[a].side = "BACK" /\ post.ord[b].side = "LAY"
+          /\ post.ord[a].selk = post.ord[b].selk /\ post.ord[a].frags # <<>>
+          /\ post.ord[a].type = post.ord[b].type /\ SS[a].lineorder = SS[b].lineorder
+          /\ SameFills(post.ord[a].frags, post.ord[b].frags)) =>
+             Ck("C08", "SideSymmetry", SS[a].profit = -SS[b].profit, <<a, b, SS[a].profit, SS[b].profit, SS[a].lineresult, SS[a].line>>)
+    /\ \A i \in DOMAIN e.a.cleared :
+         LET c == e.a.cleared[i]
+             mine == {o \in DOMAIN SS : SS[o].client = c.client /\ Has(post.ord, o) /\ post.ord[o].m > 0}
+             total == SumOver(mine, LAMBDA o : SS[o].profit)
+         IN /\ Ck("C08", "ClearedIsSum", STL!Abs(c.profit - total) <= 1 /\ c.betCount = Cardinality(mine), <<c, total, mine>>)
+            /\ Ck("C08", "CommissionOnlyOnNetWin", STL!CommissionOk(c.commission, c.profit, e.a.rates[c.client]), <<c>>)
+
+
+-----------------------------------------------------------------------------
+(* C20 market closure (evaluated on the step that processes a CLOSED book) *)
+SeqCount(q, x) == Cardinality({i \in DOMAIN q : q[i] = x})
+P_C20(pre, e) ==
+    LET post == e.st IN
+    /\ (e.ev = "close" =>
+          /\ Ck("C20", "CallbackOncePerClosingUpdate",
+                /\ \A i \in DOMAIN e.a.subscribed : SeqCount(e.a.closed_calls, <<e.a.subscribed[i], e.a.mid>>) = 1
+                /\ Len(e.a.closed_calls) = Len(e.a.subscribed),
+                <<e.a.mid, e.a.closed_calls, e.a.subscribed, "known_before", e.a.known_before>>)
+          /\ Ck("C20", "ClosedFlag", Has(post.mkt, e.a.mid) /\ post.mkt[e.a.mid].closed /\ post.mkt[e.a.mid].status = "CLOSED",
+                <<e.a.mid>>)
+          /\ Ck("C20", "ClearedReported",
+                /\ Len(e.a.cleared) = Cardinality(DOMAIN e.a.rates)                \* one summary per client
+                /\ \A i \in DOMAIN e.a.cleared : e.a.cleared[i].marketId = e.a.mid
+                /\ LET n == Cardinality({o \in DOMAIN post.ord : post.ord[o].mid = e.a.mid /\ post.ord[o].inbl})
+                   IN IF n > 0 THEN Len(e.a.cleared_meta) = 1 /\ Len(e.a.cleared_meta[1]) = n
+                      ELSE e.a.cleared_meta = <<>>,
+                <<e.a.mid, e.a.cleared, e.a.cleared_meta>>)
+          /\ Ck("C20", "ClosedEventLogged", e.a.nclosed_events = 1, e.a.nclosed_events)
+          /\ Ck("C20", "OrdersGetResults",
+                \A o \in DOMAIN e.a.settle :
+                   (Has(post.ord, o) /\ post.ord[o].inbl /\ post.ord[o].selk \in DOMAIN e.a.rstat) =>
+                       (e.a.settle[o].rstatus = e.a.rstat[post.ord[o].selk] /\ e.a.settle[o].mtype = e.a.mtype),
+                e.a.mid)
+          /\ Ck("C20", "StateReleased",
+                /\ \A k \in DOMAIN post.rc : post.rc[k].mid # e.a.mid
+                /\ ~e.a.mw_has,
+                <<e.a.mid, e.a.mw_has>>))
+    \* data for a closed market arrives again: the market is re-opened
+    /\ (e.ev = "mw" /\ Has(pre.mkt, e.a.mid) /\ pre.mkt[e.a.mid].closed =>
+          Ck("C20", "ReopenResetsFlags", ~post.mkt[e.a.mid].closed /\ e.a.ncleared_flags = 0, e.a.mid))
+    \* every CLOSED book of the input is processed as a closure
+    /\ (e.ev = "upd" /\ e.a.status = "CLOSED" =>
+          Ck("C20", "ClosedBookProcessed", e.a.will_close, <<e.a.mid, e.a.pt>>))
+
 -----------------------------------------------------------------------------
 StepOK(pre, e) ==
     /\ ("R" \in Props => (Conforms(pre, e) /\ (e.ev = "cb" => ReqVerdicts(pre, e.reqs, 1))))
@@ -363,6 +437,8 @@ StepOK(pre, e) ==
     /\ ("C05" \in Props => P_C05(pre, e))
     /\ ("C06" \in Props => P_C06(pre, e))
     /\ ("C09" \in Props => P_C09(pre, e))
+    /\ ("C08" \in Props => P_C08(pre, e))
+    /\ ("C20" \in Props => P_C20(pre, e))
     /\ ("C07" \in Props => P_C07T(pre, e))
     /\ ("C03" \in Props => P_C03(pre, e))
     /\ ("C04" \in Props => P_C04(pre, e))
